@@ -9,6 +9,7 @@ mod s_codec;
 mod s_group;
 mod s_machine;
 mod s_pair;
+mod s_replay;
 mod s_tower;
 mod s_conv;
 mod s_field;
@@ -27,6 +28,8 @@ pub struct Args {
     pub part: u64,
     pub parts: u64,
     pub focus: String,
+    pub table: String,
+    pub mode: String,
 }
 
 fn parse() -> Args {
@@ -42,6 +45,8 @@ fn parse() -> Args {
         part: 0,
         parts: 1,
         focus: "all".into(),
+        table: String::new(),
+        mode: "both".into(),
     };
     let v: Vec<String> = std::env::args().collect();
     a.suite = v.get(1).cloned().unwrap_or_default();
@@ -55,6 +60,8 @@ fn parse() -> Args {
             "--in" => a.input = v[i + 1].clone(),
             "--tier" => a.tier = v[i + 1].clone(),
             "--part" => a.part = v[i + 1].parse().expect("part"),
+            "--mode" => a.mode = v[i + 1].clone(),
+            "--table" => a.table = v[i + 1].clone(),
             "--focus" => a.focus = v[i + 1].clone(),
             "--parts" => a.parts = v[i + 1].parse().expect("parts"),
             x => panic!("unknown option {}", x),
@@ -84,6 +91,7 @@ fn main() {
         "gmachine" => s_machine::run_gmachine(&a, &mut out),
         "fmachine" => s_machine::run_fmachine(&a, &mut out),
         "tower" => s_tower::run(&a, &mut out),
+        "symwalk" => s_replay::run(&a, &mut out),
         "group" => s_group::run_group(&a, &mut out),
         "encode" => s_group::run_encode(&a, &mut out),
         s => {
